@@ -568,7 +568,7 @@ func init() {
 		},
 		Covers: []string{"C15.import-shape-loaded", "C15.import-shape-rejected-with-an-error", "C15.definition-built", "C15.odd-definition-rejected-with-an-error", "C15.env-file-read", "C15.env-file-rejected-with-an-error", "C15.grammar-built", "C15.grammar-rejected", "C15.draw-checked", "C15.draw.structure-rejected"},
 		Bounds: map[string]interface{}{
-			"quick":    "taskctl's OWN loading code on the shapes the parsers can hand it: (i) the value under `import` = null, string, int, bool, list of strings, list with an int / null / nested list, string-keyed map, interface-keyed map; (ii) a definition with a null task / context / stage / watcher entry, a task whose env_file is missing, `dir` on a pipeline-typed stage, a stage naming neither or both of task and pipeline, a task without command, a pipeline without stages, no tasks section; (ii') a grammar of definitions: task t2 in 6 shapes (null, empty, null variation, unknown context + empty lists, renamed with variations/condition/dir, sound) x context c2 null/empty/absent x pipeline p2 null/empty/sound x two stages of p1 each in 8 shapes (null, empty, task, task with name+depends_on+dir+env, pipeline with dir+condition, task AND pipeline, name only, self-reference) x watcher null / unknown task / odd lists / sound = 13 824 definitions, then the fields the list/show/graph/validate commands read are walked; (iii) env files of two lines over {A=1, A, A=1=2, =, empty, =x, # comment}, env file missing; (iv) the graph command: two pipelines of two stages each, every stage one of task / pipeline p1 / pipeline p2 / task AND p1 / task AND p2 (625 inclusion structures): whatever the real buildFromDefinition accepts is drawn by the real draw() of the graph command, which must return (the dot library is replaced by counting stubs). Any reachable panic (nil dereference, failed type assertion, index out of range) is a violation",
+			"quick":    "taskctl's OWN loading code on the shapes the parsers can hand it: (i) the value under `import` = null, string, int, bool, list of strings, list with an int / null / nested list, string-keyed map, interface-keyed map; (ii) a definition with a null task / context / stage / watcher entry, a task whose env_file is missing, `dir` on a pipeline-typed stage, a stage naming neither or both of task and pipeline, a task without command, a pipeline without stages, no tasks section; (ii') a grammar of definitions: task t2 in 6 shapes (null, empty, null variation, unknown context + empty lists, renamed with variations/condition/dir, sound) x context c2 null/empty/absent x pipeline p2 null/empty/sound x two stages of p1 each in 8 shapes (null, empty, task, task with name+depends_on+dir+env, pipeline with dir+condition, task AND pipeline, name only, self-reference) x watcher null / unknown task / odd lists / sound = 13 824 definitions, then the fields the list/show/graph/validate commands read are walked; (iii) env files of two lines over {A=1, A, A=1=2, =, empty, =x, # comment, one space, one tab, indented comment, indented A=1, tab+space} (all 144 pairs), env file missing; (iv) the graph command: two pipelines of two stages each, every stage one of task / pipeline p1 / pipeline p2 / task AND p1 / task AND p2 (625 inclusion structures): whatever the real buildFromDefinition accepts is drawn by the real draw() of the graph command, which must return (the dot library is replaced by counting stubs). Any reachable panic (nil dereference, failed type assertion, index out of range) is a violation",
 			"thorough": "same",
 		},
 		Outside:     []string{"panics, hangs or errors INSIDE yaml.v2, go-toml, encoding/json, mapstructure, mergo, text/template: not encodable; arbitrary bytes, truncation, anchors, invalid UTF-8 are therefore outside", "the list / show / validate commands on the loaded configuration (text/template reflection; they read the fields walked in (ii') without recursion) and the rendering of the graph by emicklei/dot", "bounded time beyond the import closure: VerifC15ImportClosure re-runs C17's import harness (2 files with every import-count vector, 3 files for three vectors) and claims for C15 only that no file is read again and again"},
